@@ -250,7 +250,7 @@ pub fn run(ctx: &Ctx) -> CheckResult {
 
     // macro-step regimes: all orderings of 3 segments
     if !res.out.failed() {
-        let set = [Regime::Up, Regime::Down, Regime::Tick, Regime::Osc, Regime::Gap, Regime::Flat, Regime::Outlier];
+        let set = [Regime::Up, Regime::Down, Regime::Tick, Regime::Osc, Regime::Gap, Regime::Flat, Regime::Outlier, Regime::Stair];
         let ords = orderings(&set, 3);
         let seglens: Vec<usize> = if th { vec![50, 500] } else { vec![50, 300] };
         let periods: Vec<usize> = if th { vec![1, 2, 3, 4, 5, 14, 50] } else { vec![1, 2, 3, 5, 14] };
@@ -293,7 +293,7 @@ pub fn run(ctx: &Ctx) -> CheckResult {
         res.absorb(merge_jobs(outs));
     }
     res.rule = "case = (configuration, history); the real output is required to lie in [0,100] ([0,1] for ER) with 1e-9 relative slack (MFI: 100*tau(t)*c, applied when c<=1000) at every step whose reference denominator is non-zero; non-trivial = output at or within 1e-6 of a range boundary".into();
-    res.bounds = format!("seq(S_pos+reset,{d}), seq(S_int,{}) and seq(S_wide={{1,3,1e9,1e17,1e-9}}, same depth) for RSI/FAST_STOCH/ER, seq(B_grid+reset,{db}) FAST_STOCH, seq(B_vol,{dv}) MFI, SLOW_STOCH (n x {{1,2,3}}) at reduced depth, periods 1..5; macro-step runs: all 7^3 orderings of {{up,down,tick,osc,gap,flat,outlier(1e9x)}} segments, scalar and bar paths, volumes spanning 1e-3..1e9", d - 1);
+    res.bounds = format!("seq(S_pos+reset,{d}), seq(S_int,{}) and seq(S_wide={{1,3,1e9,1e17,1e-9}}, same depth) for RSI/FAST_STOCH/ER, seq(B_grid+reset,{db}) FAST_STOCH, seq(B_vol,{dv}) MFI, SLOW_STOCH (n x {{1,2,3}}) at reduced depth, periods 1..5; macro-step runs: all 8^3 orderings of {{up,down,tick,osc,gap,flat,outlier(1e9x),stair}} segments, scalar and bar paths, volumes spanning 1e-3..1e9", d - 1);
     res.assumptions = vec!["RSI denominators below 1e-280 (fully decayed averages) count as zero: such windows are C08's subject".into()];
     res
 }
